@@ -488,6 +488,24 @@ pub fn gen_ops<V: Value>(cfg: &mut RunCfg, caps: &Caps, rng: &mut Rng) -> Vec<Op
     if cfg.first_spawn != 0 {
         ops.push(Op::Spawn { kind: cfg.first_spawn, n: 0 });
     }
+    if cfg.weights[4] > 0 && cfg.weights[0] > 0 && rng.chance(1, 6) {
+        // structured opening: three sources, the middle one usually left empty (for a columns region:
+        // no column at all), merged in this order; then values the outer sources hold are pushed into
+        // the result. Statistics-carrying merges (coded leaves under columns / slices / pairs) must
+        // cover every source, wherever it stands in the list.
+        ops.push(Op::Spawn { kind: 0, n: 0 });
+        ops.push(Op::Spawn { kind: 0, n: 0 });
+        let mid = if rng.chance(2, 3) { 0 } else { 1 };
+        for (t, cnt) in [(0usize, 1 + rng.below(3)), (2, 1 + rng.below(4)), (1, mid)] {
+            for _ in 0..cnt {
+                ops.push(Op::Push { t, v: val(rng, &mut recent, 0), form: 0 });
+            }
+        }
+        ops.push(Op::Merge { srcs: vec![0, 1, 2], twin: false });
+        for _ in 0..(2 + rng.below(4)) {
+            ops.push(Op::Push { t: 3, v: val(rng, &mut recent, 14), form: 0 });
+        }
+    }
     let rel = |rng: &mut Rng, bit: u8, cfg: &RunCfg| -> bool { cfg.relations & bit != 0 && rng.chance(cfg.lockstep as u32, 16) };
     for _ in 0..cfg.steps {
         let k = rng.weighted(&cfg.weights);
